@@ -15,7 +15,7 @@ RULE = ("a transmitting driver and a peer radio; a case = (mode: auto-ack | ask_
         "of send(single|list)/resend with force_retry and send_only). Ground truth = the "
         "simulator's air log and PTX transaction record. Non-trivial: at least one attempt went "
         "on air; distinct = distinct (mode, arc, ard, call-sequence shape, loss pattern).")
-RULE += (" Later rounds added: receiving phases between two transmissions (ACK payloads loaded and not consumed; left by role change, power-down or the end of a with block), plain listen round trips, and: resend() with an empty TX FIFO must leave the RX FIFO alone.")
+RULE += (" Later rounds added: receiving phases between two transmissions (ACK payloads loaded and not consumed; left by role change, power-down or the end of a with block), plain listen round trips, and: resend() with an empty TX FIFO must leave the RX FIFO alone. A third of the cases run with some events masked from the IRQ pin (interrupt_config).")
 REQUIRED = {"return_truth": 800, "attempt_count": 100, "no_leak": 800, "termination": 800,
             "ack_payload": 50, "resend_payload": 50, "resend_empty": 20}
 ASSUMPTIONS = ["termination is judged as bounded progress on the virtual clock: the call must "
@@ -151,6 +151,12 @@ class Link:
             self.rx.ack = True
         self.rx.open_rx_pipe(1, b"\xB1\x55\x66\x77\x88")
         self.tx.open_tx_pipe(b"\xB1\x55\x66\x77\x88")
+        if case["seed"] % 3 == 0 and hasattr(self.tx, "interrupt_config"):
+            # which events pull the IRQ pin is the application's choice (it may poll instead):
+            # what send()/resend() return and transmit does not depend on it
+            sel = (case["seed"] // 3) % 4
+            self.tx.interrupt_config(data_recv=sel != 0, data_sent=sel != 1, data_fail=sel not in (2, 3))
+            self.irq_sel = sel
         self.tx.listen = False
         if case["peer"] == "listen":
             self.rx.listen = True
